@@ -215,16 +215,6 @@ func (r *runner) zoneOf(o op, ep enumPlan) string {
 			}
 			return "reattach"
 		}
-		if z := r.registryZone(o); z != "" {
-			return z
-		}
-	case "remove":
-		// C05's D17: a nested id is unregistered from the message but stays in its multiplexer
-		if o.a < len(sn.msgs) && o.b < len(sn.sigs) && idxOf(sn.msgs[o.a].reg, o.b) >= 0 && idxOf(sn.msgs[o.a].lay, o.b) < 0 {
-			return "d17"
-		}
-	case "muxremove", "muxcleargroup", "muxclearall":
-		return r.registryZone(o)
 	case "settype", "setenum":
 		if o.a < len(sn.sigs) && sn.attached(o.a) && r.sharedFollower(o.a) {
 			return "d35"
@@ -257,42 +247,6 @@ func (r *runner) zoneOf(o op, ep enumPlan) string {
 	return ""
 }
 
-// C05's D21: MultiplexerSignal.addSignal/removeSignal register one level only in the owning
-// message; ops that attach / detach a non-empty multiplexer below a registered multiplexer
-func (r *runner) registryZone(o op) string {
-	sn := r.cur
-	mi := sn.mux[o.a]
-	if mi == nil || sn.sigs[o.a].pm < 0 {
-		return ""
-	}
-	nonEmptyMux := func(x int) bool {
-		if x < 0 || x >= len(sn.sigs) || sn.mux[x] == nil {
-			return false
-		}
-		for _, rn := range sn.mux[x].runs {
-			if len(rn.hs) > 0 {
-				return true
-			}
-		}
-		return false
-	}
-	switch o.k {
-	case "muxinsert", "muxremove":
-		if nonEmptyMux(o.b) {
-			return "d21"
-		}
-	case "muxcleargroup", "muxclearall":
-		for _, rn := range mi.runs {
-			for _, y := range rn.hs {
-				if nonEmptyMux(y) {
-					return "d21"
-				}
-			}
-		}
-	}
-	return ""
-}
-
 func (r *runner) bookkeep(o op, res string) {
 	if res != "ok" {
 		return
@@ -320,6 +274,14 @@ func (r *runner) bookkeep(o op, res string) {
 	case "muxremove":
 		delete(r.mem[o.a], o.b)
 		delete(r.fixed[o.a], o.b)
+	case "remove":
+		// a multiplexed signal is removed through its multiplexer
+		if o.b < len(r.cur.sigs) {
+			if u := r.cur.sigs[o.b].pu; u >= 0 {
+				delete(r.mem[u], o.b)
+				delete(r.fixed[u], o.b)
+			}
+		}
 	case "muxcleargroup":
 		for x, ids := range r.mem[o.a] {
 			var keep []int
@@ -473,7 +435,7 @@ func (r *runner) step(o op) bool {
 		return false
 	}
 	// states outside the hypotheses of the theorems: end the history
-	if (zone == "reattach" || zone == "d17" || zone == "d21") && res == "ok" {
+	if zone == "reattach" && res == "ok" {
 		r.zone = zone
 		return false
 	}
@@ -485,14 +447,14 @@ func (r *runner) step(o op) bool {
 }
 
 // signature of the first failure: "<predicate class>@<zone or op kind>"; histories that leave the
-// hypotheses through a defect owned by the C04-C06 stream (re-attachment D20, nested RemoveSignal
-// D17, one-level registration D21) are classified by that zone alone
+// hypotheses through the defect owned by the C04-C06 stream (re-attachment D20) are classified by
+// that zone alone
 func (r *runner) signature() string {
 	if len(r.fails) == 0 {
 		return ""
 	}
 	switch r.zone {
-	case "reattach", "d17", "d21":
+	case "reattach":
 		return r.zone
 	case "d36":
 		// the referencing signals are visited in Go map order: which predicate fails (overlap,
